@@ -791,10 +791,14 @@ def _str(interp, args, kwargs):
         return "True" if interp.truth(v) else "False"
     if type(v).__name__ == "NumText":
         return v
+    if type(v) is SObj:
+        for name in ("__str__", "__repr__"):
+            f = interp.lookup_class_attr(v.cls, name)
+            if f is not None and f[1] is not object and hasattr(f[0], "__code__"):
+                return interp.call(interp.bind(f[0], v, f[1]), [], {})
+        return SymStr(["<obj>"])
     if has_sym_deep(v):
         return SymStr(["<sym>"])
-    if type(v) is SObj:
-        return SymStr(["<obj>"])
     if isinstance(v, PyExc):
         return str(v.exc_args[0]) if v.exc_args else ""
     return str(*args, **kwargs)
